@@ -113,23 +113,26 @@ CHECKS = {
 
 # later extensions of the enumerated space, appended to the level text
 EXTRA = {
- "C01": " The registry also contains the exported ExtendedCurve implementation of edwards25519vartime (21 instances).",
- "C02": " Receiver-aliased forms r.Op(r,b), r.Op(a,r), r.Op(r,r); values made by every constructor (fresh, Zero, One, SetInt64, short SetBytes, Pick, Clone) as operands and in Equal, both directions.",
- "C03": " Scalars include Pick results under streams that start with the encodings of q-1, q, q+1.",
+ "C11": " A deviating leaver in resharing, unknown response status codes, the oracle 'an honest receiver of an invalid share complains about exactly that dealer', Rabin output asked twice.",
+ "C12": " n = 5, 7 over a reduced event menu; Signature() polled mid-history and the returned slice edited; long-term and one-time keys of different thresholds.",
+ "C06": " Operand objects updated in place between two Pair calls; additivity over all pairs of the value sets and over six internal forms of one element; the mid-size scalar alphabet per argument.",
+ "C01": " The registry also contains the exported ExtendedCurve implementation of edwards25519vartime (21 instances). Scalars k*lambda+d around the cube roots of unity mod q (endomorphism split) and the named scalars 0,1,2,q-1 made by the setters on reused scalar objects.",
+ "C02": " Receiver-aliased forms r.Op(r,b), r.Op(a,r), r.Op(r,r); values made by every constructor (fresh, Zero, One, SetInt64, short SetBytes, Pick, Clone) as operands and in Equal, both directions. mod.Int operations into targets of no or another modulus, the target then used as receiver and first operand.",
+ "C03": " Scalars include Pick results under streams that start with the encodings of q-1, q, q+1. Weierstrass points with tiny x built from the curve equation (leading zero bytes); kilic groups with a caller's tag (Equal <=> identical bytes over originals, clones, decoded copies); Ed448-Goldilocks as a caller-supplied parameter set (odd-length encodings).",
  "C04": " Further composite entry points: Pedersen / Rabin Verifier.ProcessEncryptedDeal with each byte field of an encrypted deal replaced by hostile bytes, shuffle.Verifier and BiffleVerifier on hostile proofs, the hexadecimal readers (51 entry points).",
- "C05": " After every program a latent-sharing probe writes every variable in place once: a variable sharing storage with another one receives two increments.",
- "C07": " Large n in {8,12,16,21,24,32} (thorough to 64) with a menu of subset shapes; the sum of two commitment polynomials keeps its base.",
- "C08": " Negated R / S / key; every small-order key with an ordinary R=k*B, S=k over 64 messages.",
- "C09": " BLS over a family of 400 messages per combination; CoSi aggregation functions return the sum, leave their inputs intact and are repeatable.",
- "C10": " Additional event: the approval of an equivocated deal (another polynomial whose SessionID field claims this session).",
- "C13": " Equation-consistent two-field forgeries (share value altered, proof commitments recomputed from the verification equations); batch verification and recovery leave the caller's slices intact.",
- "C14": " 300-character protocol names differing in one character; prover randomness is a fixed tape per case.",
- "C15": " Pair shuffle also with a generator other than the base point; biffle forging prover (each of the 8 relations violated, same-shape transcript); sequence shuffle offered an output with one column dropped and honestly proven.",
- "C16": " Every bit of format and boundary bytes, cancelling double flips in the tag; ciphertexts produced once per case. IBE-CCA wrong-identity clause judged for the empty message (open known finding) and from 8 bytes on.",
- "C17": " Families of 2,000 Pick streams and 3,000 hashed messages per group; Embed under all-ones / all-zero stream prefixes.",
- "C18": " In-place Sub/Neg forms; the transcript also carries Pick/hash families, Pick under 0xff-prefixed streams and the decoding of v+p coordinate encodings.",
- "C19": " Depth-2 exploration from six non-initial states reached by prefixes of 8-27 steps; for every seed length 1..300 changing one byte of the seed or of the absorbed data changes the output.",
- "C20": " Also: a scalar decoded from an unreduced encoding, the first use of a freshly constructed suite of every family, suites with caller-supplied domain-separation tags.",
+ "C05": " After every program a latent-sharing probe writes every variable in place once: a variable sharing storage with another one receives two increments. A second pool (identity operand, scalar zeroed in place); the probe negates every variable in place first and then adds a different increment to each.",
+ "C07": " Large n in {8,12,16,21,24,32} (thorough to 64) with a menu of subset shapes; the sum of two commitment polynomials keeps its base. One secret polynomial committed to every sequence of up to 3 bases.",
+ "C08": " Negated R / S / key; every small-order key with an ordinary R=k*B, S=k over 64 messages. Ring sizes to 8 on Ed25519; signing objects over several calls (schnorr Scheme with in-place key updates, one EdDSA object): every signature handed out is kept and judged at the end.",
+ "C09": " BLS over a family of 400 messages per combination; CoSi aggregation functions return the sum, leave their inputs intact and are repeatable. Threshold BLS with 6 and 8 signers, BDN masks over 9 and 10 signers; a cancelling-pair forger for Recover; BDN aggregation repeated on one mask object and after a clone aggregated; unused CoSi mask bits against the policy.",
+ "C10": " Additional event: the approval of an equivocated deal (another polynomial whose SessionID field claims this session). A refused deal carrying another valid threshold; justifications revealing a share at an out-of-range index, another verifier's share, a share of a foreign polynomial (the last two: genuine defects, fixed).",
+ "C13": " Equation-consistent two-field forgeries (share value altered, proof commitments recomputed from the verification equations); batch verification and recovery leave the caller's slices intact. Trustee lists of 7 and 10 on a reduced menu; repeated shares in recovery lists; the batch verifier with an altered polynomial next to the original evaluations; H equal to a trustee's key; DLEQ with equal bases.",
+ "C14": " 300-character protocol names differing in one character; prover randomness is a fixed tape per case. Nested conjunctions, one predicate object across groups, verify-only clique members, a Rep value shared by Or branches (open known finding).",
+ "C15": " Pair shuffle also with a generator other than the base point; biffle forging prover (each of the 8 relations violated, same-shape transcript); sequence shuffle offered an output with one column dropped and honestly proven. Strategy F2 (honest proof vs an output adjusted along the kernel of Zsigma: open known finding), F3/F4 (embedded simple shuffle bound to one half of the link), parameter spellings nil vs base point, sequence-shuffle challenge vectors with ones.",
+ "C16": " Every bit of format and boundary bytes, cancelling double flips in the tag; ciphertexts produced once per case. IBE-CCA wrong-identity clause judged for the empty message (open known finding) and from 8 bytes on. ECIES hash options on every group, CPA bodies extended in transit, anonymous-set messages beyond 64 KiB and sets of 6, the keyless tag forgery against anonymous-set encryption (open known finding).",
+ "C17": " Families of 2,000 Pick streams and 3,000 hashed messages per group; Embed under all-ones / all-zero stream prefixes. Embed on the quadratic residues of the 3072-bit RFC 3526 prime (data beyond 255 bytes); UnmarshalFrom(stream) = Pick(stream).",
+ "C18": " In-place Sub/Neg forms; the transcript also carries Pick/hash families, Pick under 0xff-prefixed streams and the decoding of v+p coordinate encodings. Clamped unreduced Ed25519 key scalars as multipliers; Pick under small-order candidates on the three Ed25519 implementations; custom-tag hashing through clones (kilic = circl = gnark); mod.Int BigEndian/LittleEndian widths in the transcript and against math/big (a genuine defect, fixed).",
+ "C19": " Depth-2 exploration from six non-initial states reached by prefixes of 8-27 steps; for every seed length 1..300 changing one byte of the seed or of the absorbed data changes the output. Reader sets over six delivery behaviours (trickling, data-with-EOF); a pool reader refilled between calls.",
+ "C20": " Also: a scalar decoded from an unreduced encoding, the first use of a freshly constructed suite of every family, suites with caller-supplied domain-separation tags. A complete BDN mask, aggregated directly and through clones taken by each thread.",
 }
 
 NOT_YET = "check not built yet in this round (planned: see DESIGN.md §4)"
